@@ -274,6 +274,9 @@ def shards(tier, seed):
     return specs
 
 
+# a datatype that refuses with ZConfig's own DataConversionError (about another place)
+VALUE_DTS = gen.KEY_DATATYPES + ["zcv.dt.nested", "zcv.dt.nested", "zcv.dt.nested"]
+
 EVERY = ["<x y z>", "%foo x", "k ${x", "nosuchkey-zz v", "<nosuchtype/>", "</nosuchtype>", "%define 1x v", "k $(x"]
 
 
@@ -321,7 +324,7 @@ def run_shard(spec):
         return res
     for i in range(spec["lo"], spec["hi"]):
         rng = loadcheck.case_rng(spec["seed"] + 7777, i)
-        ast = gen.gen_schema(rng)
+        ast = gen.gen_schema(rng, value_dts=VALUE_DTS if i % 3 == 0 else None)
         sm = refload.compile_schema(ast)
         try:
             schema, xml = loadcheck.load_schema(ast)
